@@ -9,6 +9,7 @@ model's records; the Lean model (the repaired code) computes the verdict from th
 Observable: True / False / raised:<Exception>.
 """
 import itertools
+import json
 import os
 from fractions import Fraction
 
@@ -547,6 +548,31 @@ def random_field(seed, domain=False):
     return f
 
 
+def bare_axes_field(seed):
+    """3-4 domain axes of ONE size, all spanned by the field data; some carry a 1-d coordinate, some are bare
+    (no 1-d coordinate of their own); one or two 2-d constructs.  The axes of an N-d construct are then the
+    only thing that tells some fields apart: the axis mapping of Constructs.equals has to be checked in
+    both directions."""
+    C = cfdm()
+    rng = fw.rng_for(seed, "C05bare")
+    n = rng.choice([3, 3, 4])
+    size = rng.choice([2, 3, 4])
+    f = C.Field(properties={"standard_name": "air_temperature"})
+    ax = [f.set_construct(C.DomainAxis(size)) for _ in range(n)]
+    f.set_data(C.Data(np.arange(float(size ** n)).reshape([size] * n), units="K"), axes=ax)
+    with_coord = rng.sample(range(n), rng.choice([1, 1, 2]))
+    for i in with_coord:
+        cls = C.DimensionCoordinate if rng.random() < 0.7 else C.AuxiliaryCoordinate
+        f.set_construct(cls(properties={"long_name": "c%d" % i}, data=C.Data(np.arange(float(size)) * (i + 1), units="m")), axes=[ax[i]])
+    for q in range(rng.choice([1, 1, 2])):
+        i, j = rng.sample(range(n), 2)
+        cls = rng.choice([C.AuxiliaryCoordinate, C.AuxiliaryCoordinate, C.CellMeasure, C.DomainAncillary])
+        kw = dict(measure="area") if cls is C.CellMeasure else {}
+        a = np.array([rng.randint(0, 40) for _ in range(size * size)], dtype=float).reshape(size, size)
+        f.set_construct(cls(properties={"long_name": "two%d" % q}, data=C.Data(a), **kw), axes=[ax[i], ax[j]])
+    return f
+
+
 def base_field(base):
     kind = base[0]
     if kind == "ex":
@@ -557,6 +583,8 @@ def base_field(base):
         return random_field(base[1])
     if kind == "randdom":
         return random_field(base[1], domain=True)
+    if kind == "bare":
+        return bare_axes_field(base[1])
     raise fw.HarnessError(f"unknown base {base}")
 
 
@@ -733,9 +761,16 @@ def perturb_array(x, y, path, rng, how):
         else:
             if a.dtype != np.dtype("float64"):
                 raise Skip
-            nv = float(a.flat[i]) + 0.25
-            if Fraction(nv) - Fraction(float(a.flat[i])) != Fraction(1, 4):
-                raise Skip
+            if rng.random() < 0.4:
+                # one unit in the last place: inside the package-wide default tolerance (machine epsilon,
+                # relative and absolute) for |v| >= 1, outside an explicit zero tolerance
+                nv = float(np.nextafter(a.flat[i], np.inf))
+                if nv == float(a.flat[i]) or not np.isfinite(nv):
+                    raise Skip
+            else:
+                nv = float(a.flat[i]) + 0.25
+                if Fraction(nv) - Fraction(float(a.flat[i])) != Fraction(1, 4):
+                    raise Skip
             a.flat[i] = nv
     elif how == "mask":
         a = np.ma.array(a)
@@ -1006,6 +1041,14 @@ def transform(x, kind, rng, ctx):
             axes = da[k]
             if len(axes) == 2 and sizes[axes[0]] == sizes[axes[1]]:
                 cands.append((k, (axes[1], axes[0])))
+            if len(axes) == 2:
+                # replace one of the two axes by a third axis of the same size
+                for pos in (0, 1):
+                    for k2, s in sizes.items():
+                        if k2 not in axes and s == sizes[axes[pos]]:
+                            new = list(axes)
+                            new[pos] = k2
+                            cands.append((k, tuple(new)))
             if len(axes) == 1:
                 for k2, s in sizes.items():
                     if k2 != axes[0] and s == sizes[axes[0]] and c.construct_type != "dimension_coordinate":
@@ -1372,12 +1415,12 @@ def expected(kind, info, e, x, y):
 KINDS_ANY = ["same", "copy", "copy", "ncnames", "unrelated", "unrelated", "compress", "other:int", "other:str", "other:none", "other:ndarray", "other:field", "other:domain",
              "other:data", "other:cm", "other:ref", "other:axis", "other:dim", "other:bounds", "other:aux2d", "other:measure",
              "other:fanc", "other:datum"]
-KINDS_PD = ["prop:top", "prop:top", "prop:top", "datum:top", "datum:top", "within:top", "mask:top", "dtype:top", "dtype:top", "shape:top",
+KINDS_PD = ["prop:top", "prop:top", "prop:top", "datum:top", "datum:top", "within:top", "within:top", "within:top", "mask:top", "dtype:top", "dtype:top", "shape:top",
             "fill:top", "fill:top", "units:top", "calendar:top", "data:remove",
             "prop:bounds", "datum:bounds", "mask:bounds", "dtype:bounds", "fill:bounds", "units:bounds", "within:bounds",
             "bounds:remove", "bounds:add", "geometry", "ring:datum", "ring:remove", "measure", "external", "retype", "retype"]
 KINDS_FD = ["subspace", "rename", "rename", "reorder", "reorder", "rename+reorder", "rename+reorder",
-            "prop:con", "prop:con", "prop:conbounds", "datum:con", "datum:con", "within:con", "mask:con", "dtype:con", "fill:con", "units:con",
+            "prop:con", "prop:con", "prop:conbounds", "datum:con", "datum:con", "within:con", "within:con", "within:con", "mask:con", "dtype:con", "fill:con", "units:con",
             "datum:conbounds", "mask:conbounds", "dtype:conbounds", "fill:conbounds",
             "axes", "axes", "dataaxes", "cm:method", "cm:qualifier", "cm:interval", "cm:axes", "cm:remove", "cm:add", "cm:order",
             "ref:param", "ref:datum", "ref:coords:remove", "ref:coords:replace", "ref:ancillary", "ref:remove",
@@ -1419,13 +1462,25 @@ def gen(rng, tier, n):
             base = ["rand", rng.randrange(1 << 30)]
         else:
             base = ["randdom", rng.randrange(1 << 30)]
+        bare = rng.random() < 0.04
+        if bare:
+            base = ["bare", rng.randrange(1 << 30)]
         f = base_field(base)
         sels = selectors(f, rng)
-        sel = ["self"] if rng.random() < 0.5 else list(rng.choice(sels))
+        sel = ["self"] if (bare or rng.random() < 0.5) else list(rng.choice(sels))
         x = select(f, sel)
-        kind = rng.choice(kinds_for(x))
+        kind = rng.choice(["axes", "axes", "axes", "dataaxes", "rename+reorder", "copy"]) if bare else rng.choice(kinds_for(x))
         pname = rng.choice(PERTURB_PROP_NAMES) if kind.startswith("prop") else None
         opts = gen_opts(rng, pname)
+        if kind.startswith("prop") and pname and rng.random() < 0.35:
+            # "each ignore option removes exactly its own class": name the touched property in every
+            # accepted form of ignore_properties, alone and together with ignore_fill_value
+            opts["ip"] = rng.choice([["s", pname], ["s", pname], ["t", [pname]], ["l", [pname]], ["t", ["zzz", pname]]])
+            opts["ifv"] = rng.random() < 0.5
+        if kind.startswith("within") and rng.random() < 0.5:
+            # explicit tolerances, zero included, are what "within tolerance" is about
+            opts["rtol"] = rng.choice([0.0, 0.0, 2.0 ** -10])
+            opts["atol"] = rng.choice([0.0, 0.0, 0.5])
         p = dict(base=base, sel=sel, kind=kind, pname=pname, opts=opts, tseed=rng.randrange(1 << 30), swap=rng.random() < 0.3)
         c = mk_case(p)
         if c is None:
@@ -1580,6 +1635,38 @@ def _structure(f):
                 roles=set(c.construct_type for c in cons.values()), sizeless=any(a.get_size(None) is None for a in f.domain_axes(todict=True).values()))
 
 
+def _domain_isomorphic(x, y):
+    """Exact test (all size-preserving bijections of the domain axes, no use of cfdm.equals): do the
+    metadata constructs of x and y agree, with their axes, under some renaming of the domain axes?"""
+    from harness import fingerprint as fp
+    ax = {k: a.get_size(None) for k, a in x.domain_axes(todict=True).items()}
+    ay = {k: a.get_size(None) for k, a in y.domain_axes(todict=True).items()}
+    if sorted(map(str, ax.values())) != sorted(map(str, ay.values())) or len(ax) > 6:
+        return False
+
+    def cons(f):
+        da = f.constructs.data_axes()
+        out = []
+        for t_ in ("dimension_coordinate", "auxiliary_coordinate", "cell_measure", "field_ancillary", "domain_ancillary",
+                   "domain_topology", "cell_connectivity"):
+            for k, c_ in f.constructs.filter_by_type(t_, todict=True).items():
+                out.append((json.dumps(fp.fp_construct(c_, names=False), sort_keys=True, default=str), tuple(da.get(k, ()))))
+        return out
+
+    cx, cy = cons(x), cons(y)
+    if len(cx) != len(cy):
+        return False
+    kx, ky = list(ax), list(ay)
+    target = sorted(cy)
+    for perm in itertools.permutations(ky):
+        m = dict(zip(kx, perm))
+        if any(ax[a] != ay[m[a]] for a in kx):
+            continue
+        if sorted((s, tuple(m[a] for a in axes)) for s, axes in cx) == target:
+            return True
+    return False
+
+
 def classify(c):
     """Signature of a known defect, or a coarse label that merely groups unlisted failures
     (such a label is in no known_findings entry, so it is still reported as a VIOLATION)."""
@@ -1624,7 +1711,11 @@ def _classify(c):
         return "cell-method-axes-unmatched-axis-two-places-before-matched-axis"
     if kind == "axes" and out in ("raised:ValueError", "raised:KeyError"):
         return "ambiguous-axis-mapping-message-raises"
-    if kind in ("dataaxes", "axes") and out == "True":
+    if kind == "dataaxes" and out == "True":
+        return "field-data-axes-not-compared"
+    if kind == "axes" and out == "True" and sy and _domain_isomorphic(x, y):
+        # moving a construct between interchangeable axes gives an isomorphic DOMAIN; only the field's
+        # data axes tell the two apart, and those are what the known finding says are never compared
         return "field-data-axes-not-compared"
     if kind in ("construct:add", "construct:remove") and out == "True" and sy:
         role = info.get("role")
